@@ -893,7 +893,10 @@ pub const PRELUDE_ALL: &[&str] = &[
   "true", "bool", "nil", "null", "undefined",
 ];
 
-pub const TEXT_POOL: &[&str] = &["a", "b", "k", "key", "x y", "", "é", "q\"uote", "back\\slash", "semi;colon", "line\nbreak", "tab\t", "😀", "'single'", "a/b", "0", "null", "\\u", "C:\\users\\new", "\\\\uD800", "\\\""];
+pub const TEXT_POOL: &[&str] = &["a", "b", "k", "key", "x y", "", "é", "q\"uote", "back\\slash", "semi;colon", "line\nbreak", "tab\t", "😀", "'single'", "a/b", "0", "null"];
+/// the same pool plus texts in which an escaped backslash or quote is directly followed by a letter
+/// that would start another escape (`"\\u"`, `"C:\\users\\new"`): used by C03 only
+pub const TEXT_POOL_ESC: &[&str] = &["a", "b", "k", "key", "x y", "", "é", "q\"uote", "back\\slash", "semi;colon", "line\nbreak", "tab\t", "😀", "'single'", "a/b", "0", "null", "\\u", "C:\\users\\new", "\\\\uD800", "\\\""];
 
 impl Profile {
   /// the whole grammar, syntactically (parser-level properties)
